@@ -36,6 +36,19 @@ CLAIMED = {
               'of normalized document and normalization errors with the real code is decided by the normalize / validate ports.'),
         note=COMMON_NOTE + 'Coercers, rename handlers and default setters come from a fixed family with twin definitions (harness/families.py, Model/Env.lean).',
         design='§6 C02'),
+    'C03': dict(
+        technique='Lean 4 proof (per-handler totality on every value under explicit constraint guards; declared exceptions; caught user exceptions) + correspondence on wrong-shape streams + no-raise oracle',
+        text=('In the Lean model every partial Python operation is an explicit Except. Proved: C03_only_declared / C03_document_error '
+              '(only SchemaError and DocumentError leave __init_processing; a non-mapping document raises DocumentError), '
+              'C03_coercer_caught / C03_setter_caught (exceptions of user coercers, rename handlers and default setters become errors), '
+              'and for the rule handlers C03_allowed, C03_forbidden, C03_min, C03_max, C03_length, C03_regex, C03_items, C03_keysrules, '
+              'C03_valuesrules, C03_nullable, C03_readonly, C03_empty, C03_check_with, C03_lookup: no Python exception for *any* value, '
+              'under a guard on the constraint that is what the rule\'s constraint schema demands. Partial: the composition over all '
+              'nested rule sets of an accepted schema (needs the C04 well-formedness predicate) and the handlers contains / dependencies / '
+              'excludes / schema / *of are decided by the ports (model and code must agree on raising) and the no-raise oracle on '
+              'wrong-shape streams.'),
+        note=COMMON_NOTE + 'Totality of the model is only as complete as the placement of partial operations in it; the ports check that placement against the code.',
+        design='§6 C03'),
     'C06': dict(
         technique='Lean 4 proof (return conventions and decomposition on the API state machine) + correspondence of the state machine + oracle of the API relations',
         text=('On the Lean state machine of one validator instance (Model/Api.lean): C06_verdict (validate returns True iff no error is '
@@ -55,6 +68,27 @@ CLAIMED = {
               'the api port over random histories (mixed flags, invalid and non-mapping documents, accepted and rejected per-call schemas).'),
         note=COMMON_NOTE + 'Error trees and the handler tree are functions of the error list (C11, C13) and are not stored in the state.',
         design='§6 C07'),
+    'C09': dict(
+        technique='Lean 4 proof (count/threshold/children theorems on the *of handler for every child-validation function) + standalone-definition oracle + validate0 correspondence',
+        text=('C09_count: the number the operators compare is the number of definitions whose individual validation (definition + '
+              'inherited type/allow_unknown, whole document, same options and update flag) reports no error; C09_anyof/allof/noneof/'
+              'oneof: the thresholds; C09_info: the error carries that count, the number of definitions and exactly the errors of the '
+              'failing definitions; C09_children; C09_skip_none / C09_skip_type on the extracted tables. All for every rec (hence '
+              'validate0 at every fuel). Tie: validate0 port on the *of-heavy stream; oracle: each definition validated on its own by a '
+              'real validator, compared with presence, counts and definition indices of the real error.'),
+        note=COMMON_NOTE + 'That child errors are keyed by definition index in definitions_errors rests on the schema-path shape of child errors, which is checked by the oracle and the port (schema paths compared), not yet by a theorem.',
+        design='§6 C09'),
+    'C10': dict(
+        technique='Lean 4 proof (child-context lemmas and one call-site theorem per container rule) + standalone-sub-document oracle + validate0 correspondence',
+        text=('C10_inherit, C10_paths, C10_root, C10_root_deep, C10_root_lookup (configuration copied except keyword overrides; paths '
+              'prefixed; root document captured by the first generation only and used for ^-paths at every depth); C10_schema_mapping, '
+              'C10_schema_sequence, C10_items, C10_valuesrules, C10_keysrules: each container rule reports exactly the errors of the '
+              'child validation of the sub-document / items / values / keys with the documented overrides and update flag. The step '
+              'from "child validation in a child context" to "standalone validation with prefixed paths" (path equivariance) is partial '
+              '(C10_equivariant_partial: error construction is equivariant) and is decided by the oracle, which validates every '
+              'sub-document standalone with real validators, and by the validate0 port.'),
+        note=COMMON_NOTE + 'Item/value rule sets combining excludes with required are excluded as in the property; ^-dependencies below the compared field are skipped by the oracle and covered by C10_root_lookup + a direct depth-1..4 check.',
+        design='§6 C10'),
     'C11': dict(
         technique='Lean 4 proof (induction over the error forest) + correspondence of the Tree model on the real recorded errors',
         text=('Theorems C11_fetch, C11_fetch_flatten, C11_nothing_else, C11_retrievable, C11_node, C11_lookup, C11_empty hold for '
@@ -64,6 +98,16 @@ CLAIMED = {
               'property on the real objects.'),
         note=COMMON_NOTE + 'Not modelled: node.errors.sort() (compared as multisets).',
         design='§6 C11'),
+    'C12': dict(
+        technique='Lean 4 proof (error construction lemmas; emitted (code, rule) pairs on extracted definitions; children only for group codes) + path-resolution oracle + validate0 correspondence at value/constraint level',
+        text=('C12_value (document path = validator path + field; error.value = the document\'s value there), C12_constraint (schema '
+              'path = validator schema path + (field, rule); error.constraint = the dereferenced rule set\'s entry, defaults for '
+              'nullable/required), C12_definitions (every (code, rule) pair the handlers emit is an ErrorDefinition extracted from '
+              'cerberus.errors on this run), C12_emitted (the handlers emit only those pairs and attach children only to group codes), '
+              'C12_bits (group/logic/normalization bit tests on all 256 codes). Tie: validate0 port comparing value, constraint, rule; '
+              'oracle: every real error at every nesting level is resolved against validator.document and validator.schema.'),
+        note=COMMON_NOTE + 'Resolution of *nested* paths through the whole document/schema is decided by the oracle; the theorems cover the per-level construction.',
+        design='§6 C12'),
     'C13': dict(
         technique='Lean 4 proof (message-count invariants of the rendering model) + correspondence of the Render model on the real recorded errors',
         text=('Theorems C13_count / C13_count_flatten (exactly one message per non-group error and per *of error: nothing dropped, '
